@@ -42,12 +42,20 @@ def check(ctx):
                 "{all spglib operations, pure translations only, proper rotations only}; every operation of every set is compared. Non-trivial: at least 2 operations")
     todo = CELLS + ([] if ctx.quick else CELLS_MORE)
     coq_cases = []
+    variants_ = []
     for cname, diag in todo:
         ex = exact_cell(cname, diag)
         if ex is None:
             ctx.count("skipped-not-rational")
             continue
-        sc0, D, P0 = ex
+        variants_.append(ex)
+        # the same structure given with few decimals (1/3 as 0.3333): still a rational description (denominator 10000); the
+        # operations are whatever spglib finds for it
+        r4 = np.round(np.asarray(ex[0]["positions"], float), 4)
+        if np.abs(r4 - np.asarray(ex[0]["positions"], float)).max() > 1e-9:
+            variants_.append(({**ex[0], "positions": r4, "name": ex[0]["name"] + "-4decimals"}, 10000, np.rint(r4 * 10000).astype(int)))
+            ctx.count("few-decimals-variant")
+    for sc0, D, P0 in variants_:
         rots, trans = symmetry_ops(sc0)
         descrs = [("ideal", sc0, np.arange(len(sc0["numbers"])))] + hostile_descriptions(sc0, rng)
         for dname, sc, perm in descrs[: (2 if ctx.quick else 4)] if dname_filter(ctx) else descrs:
